@@ -500,6 +500,8 @@ type iterState struct {
 	keys, vals []Value
 	pos        int
 	str        *Term
+	sym        []*Term // range over a symbolic string: its bytes (the length was made concrete by forking)
+	isSym      bool
 }
 
 func (ex *Exec) rangeInit(st *State, fr *Frame, x *ssa.Range) {
@@ -517,7 +519,21 @@ func (ex *Exec) rangeInit(st *State, fr *Frame, x *ssa.Range) {
 		fr.regs[x] = Ptr{Obj: id}
 	case *Term:
 		if !m.Const {
-			unsupported("range over symbolic string")
+			// fork on the length, keep the bytes symbolic; runes are decoded in rangeNext
+			ex.concretize(st, StrLen(m), maxSeqExpand+1, func(s2 *State, n int) {
+				if n >= maxSeqExpand {
+					unsupported("range over a symbolic string longer than %d bytes", maxSeqExpand-1)
+				}
+				it := &iterState{isSym: true}
+				for i := 0; i < n; i++ {
+					it.sym = append(it.sym, StrAt(m, BVC(64, uint64(i))))
+				}
+				f2 := s2.top()
+				id := ex.alloc(s2, it)
+				f2.regs[x] = Ptr{Obj: id}
+				f2.ip++
+			})
+			return
 		}
 		id := ex.alloc(st, &iterState{str: m})
 		fr.regs[x] = Ptr{Obj: id}
@@ -531,6 +547,10 @@ func (ex *Exec) rangeNext(st *State, fr *Frame, x *ssa.Next) {
 	p := ex.get(st, fr, x.Iter).(Ptr)
 	it := st.heap[p.Obj].(*iterState)
 	tt := x.Type().(*types.Tuple)
+	if x.IsString && it.isSym {
+		ex.rangeNextSym(st, x, p, it)
+		return
+	}
 	if x.IsString {
 		s := it.str.Str
 		if it.pos >= len(s) {
@@ -557,6 +577,75 @@ func (ex *Exec) rangeNext(st *State, fr *Frame, x *ssa.Next) {
 		st.heapW()[p.Obj] = &iterState{keys: it.keys, vals: it.vals, pos: it.pos + 1}
 	}
 	fr.ip++
+}
+
+// rangeNextSym decodes the next rune of a string with symbolic bytes exactly as Go does (unicode/utf8: shortest-form
+// 1..4 byte sequences, surrogates and values above U+10FFFF rejected; an invalid sequence yields U+FFFD and consumes one byte)
+func (ex *Exec) rangeNextSym(st *State, x *ssa.Next, p Ptr, it *iterState) {
+	n := len(it.sym)
+	if it.pos >= n {
+		fr := st.top()
+		fr.regs[x] = Tuple{False, BVC(64, 0), BVC(32, 0)}
+		fr.ip++
+		return
+	}
+	b := func(i int) *Term { return ZeroExt(32, it.sym[it.pos+i]) }
+	in := func(t *Term, lo, hi uint64) *Term { return And(bvCmp("bvuge", t, BVC(32, lo)), bvCmp("bvule", t, BVC(32, hi))) }
+	cont := func(i int) *Term { return in(b(i), 0x80, 0xBF) }
+	low6 := func(i int) *Term { return bvBin("bvand", b(i), BVC(32, 0x3F)) }
+	shl := func(t *Term, k uint64) *Term { return bvBin("bvshl", t, BVC(32, k)) }
+	or := func(a ...*Term) *Term {
+		r := a[0]
+		for _, t := range a[1:] {
+			r = bvBin("bvor", r, t)
+		}
+		return r
+	}
+	type alt struct {
+		cond *Term
+		r    *Term
+		size int
+	}
+	alts := []alt{{bvCmp("bvult", b(0), BVC(32, 0x80)), b(0), 1}}
+	if it.pos+1 < n {
+		alts = append(alts, alt{And(in(b(0), 0xC2, 0xDF), cont(1)), or(shl(bvBin("bvand", b(0), BVC(32, 0x1F)), 6), low6(1)), 2})
+	}
+	if it.pos+2 < n {
+		second := Or(And(Eq(b(0), BVC(32, 0xE0)), in(b(1), 0xA0, 0xBF)), And(Eq(b(0), BVC(32, 0xED)), in(b(1), 0x80, 0x9F)),
+			And(in(b(0), 0xE1, 0xEF), Not(Eq(b(0), BVC(32, 0xED))), cont(1)))
+		alts = append(alts, alt{And(second, cont(2)), or(shl(bvBin("bvand", b(0), BVC(32, 0x0F)), 12), shl(low6(1), 6), low6(2)), 3})
+	}
+	if it.pos+3 < n {
+		second := Or(And(Eq(b(0), BVC(32, 0xF0)), in(b(1), 0x90, 0xBF)), And(Eq(b(0), BVC(32, 0xF4)), in(b(1), 0x80, 0x8F)),
+			And(in(b(0), 0xF1, 0xF3), cont(1)))
+		alts = append(alts, alt{And(second, cont(2), cont(3)), or(shl(bvBin("bvand", b(0), BVC(32, 0x07)), 18), shl(low6(1), 12), shl(low6(2), 6), low6(3)), 4})
+	}
+	finish := func(s2 *State, r *Term, size int) {
+		fr := s2.top()
+		fr.regs[x] = Tuple{True, BVC(64, uint64(it.pos)), r}
+		s2.heapW()[p.Obj] = &iterState{isSym: true, sym: it.sym, pos: it.pos + size}
+		fr.ip++
+	}
+	cur := st
+	for _, a := range alts {
+		if cur == nil {
+			return
+		}
+		yes, no := ex.branch(cur, a.cond)
+		if yes != nil {
+			finish(yes, a.r, a.size)
+			if yes != st {
+				ex.push(yes)
+			}
+		}
+		cur = no
+	}
+	if cur != nil {
+		finish(cur, BVC(32, 0xFFFD), 1)
+		if cur != st {
+			ex.push(cur)
+		}
+	}
 }
 
 func isInvalid(t types.Type) bool {
